@@ -94,6 +94,36 @@ def _quantised_result_ops(ctx, rng, n):
     return ops
 
 
+def _declared_dimension_ops(ctx, rng):
+    """for every declared derived type: the operations that land in it, written
+    in every operand order (X*Y and Y*X, X/Y, X**n for a single base type, also
+    n < 0 when only the negative power is declared)"""
+    ops = []
+    refs = {c: v["ref"] for c, v in ctx.classes.items() if v["ref"] is not None}
+    for c, v in ctx.classes.items():
+        dim = v["dim"]
+        if set(dim) == {c} or not all(b in refs for b in dim):
+            continue
+        a = _qty.tok(rng, Fraction(rng.randint(1, 99), rng.choice([1, 2, 5])))
+        b = _qty.tok(rng, Fraction(rng.randint(1, 99), rng.choice([1, 4, 3])))
+        if len(dim) == 1:
+            (x, e), = dim.items()
+            ops.append(["upow", refs[x], str(e), MODE])
+            ops.append(["q_num", "pow", f"{a}@{refs[x]}", str(e), MODE])
+        elif len(dim) == 2 and all(abs(e) == 1 for e in dim.values()):
+            (x, ex), (y, ey) = dim.items()
+            if ex == 1 and ey == 1:
+                for p, q in ((x, y), (y, x)):
+                    ops.append(["uop", "mul", refs[p], refs[q]])
+                    ops.append(["q_bin", "mul", f"{a}@{refs[p]}", f"{b}@{refs[q]}", MODE])
+                    ops.append(["q_unit", rng.choice(["mul", "rmul"]), f"{a}@{refs[p]}", refs[q], MODE])
+            elif ex != ey:
+                num, den_ = (x, y) if ex == 1 else (y, x)
+                ops.append(["uop", "div", refs[num], refs[den_]])
+                ops.append(["q_bin", "div", f"{a}@{refs[num]}", f"{b}@{refs[den_]}", MODE])
+    return ops
+
+
 def gen_cases(rng, tier):
     n_user = 40 if tier == "thorough" else 12
     n_pre = 6 if tier == "thorough" else 2
@@ -111,7 +141,8 @@ def gen_cases(rng, tier):
         cases.append(c)
     for _ in range(n_user):
         ctx = _qty.user_ctx(rng, rng.randint(10, 20))
-        cases.append(_qty.case_of(ctx, _ops_for(ctx, rng, per), ["random"]))
+        cases.append(_qty.case_of(ctx, _ops_for(ctx, rng, per) + _declared_dimension_ops(ctx, rng),
+                                  ["random"]))
     # all pairs of predefined units (thorough), a rotating block (quick)
     ctx = _qty.predefined_ctx()
     allu = [u for u in ctx.units if ctx.units[u]["scale"] is not None]
